@@ -74,12 +74,14 @@ def run(name, tier="quick", pid=None):
     rc, o = sh("git status --porcelain", cwd="/repo")
     assert o.strip() == "", "repo dirty: " + o
     rc, o = sh(f"git apply {d}/patch.diff", cwd="/repo")
+    if rc != 0:  # context moved because of a later fix: commit; fall back to fuzzy patch
+        rc, o = sh(f"patch -p1 --fuzz=3 -s --no-backup-if-mismatch < {d}/patch.diff", cwd="/repo")
     assert rc == 0, o
     t = time.time()
     try:
         rc, o = sh(f"./check {pid} --tier {tier}", cwd=ROOT, timeout=7200)
     finally:
-        sh("git checkout -- .", cwd="/repo")
+        sh("git checkout -- . && git clean -fdq baize", cwd="/repo")
     viol = [l for l in o.splitlines() if l.startswith("VIOLATION")]
     print(f"{name} vs {pid} [{tier}]: exit={rc} violations={len(viol)} wall={time.time()-t:.0f}s")
     for l in o.splitlines():
